@@ -29,7 +29,7 @@ func init() {
 				"into the serve functions.",
 			NotCovered: "equality of payloads across transports, framing arithmetic, message contents; the DNSCrypt goroutines " +
 				"belong to the dnscrypt library.",
-			Rules: map[string]string{"C01-R26": "request-path code does not write into the objects shared by all requests of a server group or profile (DDR record templates; shared with C07-R6)", "C01-R25": "bindtodevice writer: the request's deadline is set on the socket before the write", "C01-R24": "the response code the pipeline produced survives SetReply (Android metric path, cached results)", "C01-R23": "a handler that has written a response returns nil or that write's own error only (the server turns every other handler error into a second, SERVFAIL response)", "C01-RC": "class rules (error chains, shadowed results, character classes, crossed arguments, pool constructors, array pools, loop completeness, loop-carried buffers, replacing setters, complete clones, Grow arithmetic, pooled-buffer escape, sorted searches, fresh decode targets, per-iteration objects, whole-message copies, codec guards) over the packages this property rests on", "C01-R22": "slices.Grow amounts are computed from len(s), never from cap(s) (getTCPBuffer and every other growth site)", "C01-R20": "every Unpack is bounded by the bytes read for this message (shared with C06-R1); pooled RR parts are fully re-initialised by the cloner (shared with C07-R1)", "C01-R18": "the bytes of a received datagram stay the session's own until its response was written (buffer-lifetime rules shared with C06-R2)", "C01-R19": "Android metric-domain path: the pipeline serves a clone under the shared name; the response is made a reply to the client's own message (SetReply, replaceResp) before it is written, with or without answers",
+			Rules: map[string]string{"C01-R27": "both cache keys depend on the question's name, type and class (shared with C04-R2)", "C01-R28": "forward.Handler.ServeDNS returns the exchange error whenever there is one, also when a (mismatching) reply came with it (table shared with C17-R1)", "C01-R26": "request-path code does not write into the objects shared by all requests of a server group or profile (DDR record templates; shared with C07-R6)", "C01-R25": "bindtodevice writer: the request's deadline is set on the socket before the write", "C01-R24": "the response code the pipeline produced survives SetReply (Android metric path, cached results)", "C01-R23": "a handler that has written a response returns nil or that write's own error only (the server turns every other handler error into a second, SERVFAIL response)", "C01-RC": "class rules (error chains, shadowed results, character classes, crossed arguments, pool constructors, array pools, loop completeness, loop-carried buffers, replacing setters, complete clones, Grow arithmetic, pooled-buffer escape, sorted searches, fresh decode targets, per-iteration objects, whole-message copies, codec guards) over the packages this property rests on", "C01-R22": "slices.Grow amounts are computed from len(s), never from cap(s) (getTCPBuffer and every other growth site)", "C01-R20": "every Unpack is bounded by the bytes read for this message (shared with C06-R1); pooled RR parts are fully re-initialised by the cloner (shared with C07-R1)", "C01-R18": "the bytes of a received datagram stay the session's own until its response was written (buffer-lifetime rules shared with C06-R2)", "C01-R19": "Android metric-domain path: the pipeline serves a clone under the shared name; the response is made a reply to the client's own message (SetReply, replaceResp) before it is written, with or without answers",
 				"C01-R1": "acceptMsg decision table", "C01-R2": "serveDNS (undecodable input dropped) and serveDNSMsgInternal gate/effect tables",
 				"C01-R3": "at most one write event per ResponseWriter parameter on every path",
 				"C01-R4": "DoQ and DoH glue: one answer per request, from this request's recorder (SERVFAIL / HTTP 500 when nothing was written, HTTP 400 for undecodable requests)", "C01-R5": "defer handlePanicAndRecover dominates serving",
@@ -245,6 +245,13 @@ func (s *c01Summ) noWriteOnEdge(e an.CondEdge, call *ssa.Call) bool {
 
 func runC01(c *an.Ctx) {
 	classSweep(c, "C01")
+	// ---- R27: an answer served from a cache belongs to the question's name, type and class (key rules shared with
+	// C04-R2); R28: an upstream reply that failed validation is reported as an error, never written (table of the
+	// forwarding handler, shared with C17-R1)
+	c.Floor("C01-R27", 2)
+	c.Borrow("C01-R27", runC04, func(o an.Obligation) bool { return o.Rule == "C04-R2" })
+	c.Floor("C01-R28", 1)
+	c.Borrow("C01-R28", runC17, func(o an.Obligation) bool { return o.Rule == "C17-R1" })
 	// ---- R26: the request path never writes into the record templates and settings shared by a server group or a
 	// profile (a DDR answer built in place is rewritten by a concurrent query before it is packed; shared with C07-R6)
 	c.Inf("C01-R26", "shared-configuration sweep", token.NoPos, "%d stores into shared server-group / profile data found on the request path (each is reported)",
